@@ -74,6 +74,9 @@ def wf_conds(v, run):
         out.append(z3.Implies(ty.size(t) > 0, z3.Select(ty.has(t), uf(f"choice_{ty.name}", ty.sort(), ty.k.sort())(t))))
     elif isinstance(ty, TOpt) and isinstance(ty.inner, (TRef,)):
         out.append(z3.Implies(z3.Not(ty.is_none(t)), z3.And(ty.get(t) > 0, ty.get(t) < run.next_ref)))
+    elif isinstance(ty, TOpt) and isinstance(ty.inner, (TDict, TSet)):
+        for cnd in wf_conds(Val(ty.inner, ty.get(t)), run):
+            out.append(z3.Implies(z3.Not(ty.is_none(t)), cnd))
     return out
 
 
@@ -335,6 +338,12 @@ def getslice(run, base, lo, hi, node):
         n = z3.Length(base.t)
         a, b = py_slice_bounds(run, n, lo, hi, node)
         a, b = run.try_const(a), run.try_const(b)
+        if not run.spec and z3.is_int_value(a) and a.as_long() == 0 and not z3.is_int_value(b):
+            try:
+                if not run.feasible(b != n):
+                    return base           # s[:len(s)] is s
+            except z3.Z3Exception:
+                pass
         ln = z3.simplify(b - a)
         if not (z3.is_int_value(ln) and ln.as_long() >= 0):
             try:
